@@ -23,6 +23,9 @@ fn pick_universes(tier: Tier) -> Vec<Universe> {
         "lex/homographs/RawK3/user",
         "lex/nested/DualK9/user/mapped",
         "lex/space-comma/matrix3x3s2",
+        "lex/homographs/RawK3x700/5x3",
+        "lex/nested/DualK9x1/5x3/user",
+        "lex/nested/RawK3x1/3x5",
     ] {
         if let Some(u) = ul.iter().find(|u| u.name == pat || u.name.starts_with(pat)) {
             out.push(u.clone());
@@ -65,10 +68,13 @@ fn histories(tier: Tier, st: &mut Stats, universes: &[Universe]) {
             std::process::exit(2);
         });
         let t = make_tokenizer(dict, opts).unwrap();
-        // expected tokens per sentence: fresh worker
+        // expected tokens per sentence: fresh worker of a FRESH tokenizer (so that state hidden
+        // in the shared tokenizer cannot leak into the expectation)
         let mut fresh: Vec<Vec<Tok>> = vec![];
         for s in SENTENCES {
-            match run_fresh(&t, s, false) {
+            let (fd, _) = u.build().unwrap();
+            let ft = make_tokenizer(fd, opts).unwrap();
+            match run_fresh(&ft, s, false) {
                 Ok(r) => fresh.push(r.tokens),
                 Err(p) => {
                     println!("MACHINERY: fresh tokenization panicked in C04 universe {}: {p}", u.name);
@@ -184,8 +190,8 @@ fn thread_programs(nthreads: usize) -> Vec<Vec<&'static str>> {
 fn schedules(tier: Tier, st: &mut Stats, universes: &[Universe]) {
     let configs: Vec<(usize, usize, usize)> = match tier {
         // (universe index, threads, preemption bound)
-        Tier::Quick => vec![(0, 2, 2), (1, 2, 1), (2, 3, 1)],
-        Tier::Thorough => vec![(0, 2, 3), (1, 2, 3), (2, 2, 3), (0, 3, 2), (4, 3, 2), (3, 2, 3)],
+        Tier::Quick => vec![(0, 2, 2), (1, 2, 1), (2, 3, 1), (4, 2, 2)],
+        Tier::Thorough => vec![(0, 2, 3), (1, 2, 3), (2, 2, 3), (0, 3, 2), (4, 3, 2), (3, 2, 3), (5, 2, 3), (6, 3, 2)],
     };
     let cap: u64 = tier.pick(40_000, 2_000_000);
     let results = Mutex::new(Stats::default());
@@ -212,7 +218,15 @@ fn schedules(tier: Tier, st: &mut Stats, universes: &[Universe]) {
                 // sequential expectation
                 let expected: Vec<Obs> = progs
                     .iter()
-                    .map(|p| p.iter().map(|s| run_fresh(t, s, false).map(|r| r.tokens)).collect())
+                    .map(|p| {
+                        p.iter()
+                            .map(|s| {
+                                let (fd, _) = u.build().unwrap();
+                                let ft = make_tokenizer(fd, opts).unwrap();
+                                run_fresh(&ft, s, false).map(|r| r.tokens)
+                            })
+                            .collect()
+                    })
                     .collect();
                 let observed: Mutex<Vec<Obs>> = Mutex::new(vec![vec![]; nthreads]);
                 let bodies: Vec<_> = (0..nthreads)
@@ -308,7 +322,7 @@ fn schedules(tier: Tier, st: &mut Stats, universes: &[Universe]) {
 pub fn run(tier: Tier) -> i32 {
     let mut rep = Report::new("C04", tier);
     let universes = pick_universes(tier);
-    if universes.len() < 5 {
+    if universes.len() < 8 {
         println!("MACHINERY: C04 universes missing ({} found)", universes.len());
         return 2;
     }
